@@ -33,6 +33,8 @@ impl<'a> UnixListenerAccept<'a> {
             self.io_data.io_flag.store(0, Ordering::Relaxed);
 
             match self.socket.accept() {
+                #[cfg(may_verif)]
+                ref r if crate::verif::sys(&self.io_data.io_flag, "sys.accept", r) => unreachable!(),
                 Ok((s, a)) => {
                     let s = UnixStream::from_coio(CoIo::new(s)?);
                     return Ok((s, a));
